@@ -245,7 +245,30 @@ def tlc_tv(trace_path, module="ApiTrace", cfg="ApiTrace.cfg", timeout=1200, xmx=
         res["status"] = "rejected"
     else:
         res["status"] = "error"
+        # TLC could not even read the trace: if a line of it is not well-formed JSON the process under test has damaged its own log (the logger
+        # writes whole lines from a private buffer) -- that is a finding about the execution, not about the tooling
+        bad = _first_malformed_line(trace_path)
+        if bad is not None:
+            res["status"] = "rejected"
+            res["consumed"] = bad - 1
+            res["guardfails"] = [("TraceIntact", bad, "line %d of the trace is not well-formed JSON (the process damaged its own log)" % bad)]
     return res
+
+
+def _first_malformed_line(path):
+    try:
+        with open(path, "rb") as f:
+            for i, l in enumerate(f, 1):
+                l = l.strip()
+                if not l:
+                    continue
+                try:
+                    json.loads(l.decode("utf8"))
+                except Exception:
+                    return i
+    except OSError:
+        return None
+    return None
 
 
 # --------------------------------------------------------------------------------------------
